@@ -123,10 +123,43 @@ def oracle(env):
         if rerun is not None:
             codes = {env.extra.get('code')} | {rerun() for _ in range(8)}
             obs.append(Obligation(NONDET, len(codes) == 1, {'distinct_outputs': len(codes), 'outputs': sorted(str(c) for c in codes)[:3]}))
+            # ... and nothing may survive from a run under other options in the same process: every option is perturbed in turn
+            # (booleans flipped, a catch-all / no custom-element pattern, a pragma), then the original request is served again
+            jo = env.extra.get('json_options') or {}
+            pert = [{k: not bool(jo.get(k, d))} for k, d in (('transformOn', False), ('optimize', False), ('mergeProps', True), ('enableObjectSlots', True), ('resolveType', False))]
+            pert += [{'customElementPatterns': ['[\\s\\S]*']}, {'customElementPatterns': []}, {'pragma': 'h'}]
+            after = set()
+            for ov in pert:
+                after.add(rerun(None, [ov]))        # the perturbed run is served first, on the same thread of the same process
+            after.add(rerun(None, pert))
+            after.discard(None)          # a perturbed run that crashes (stack overflow on a cyclic type under resolveType) takes the request with it: the crash itself is the other clause's matter
+            obs.append(Obligation('the result does not depend on runs made earlier in the same process under other options', after <= codes,
+                                  {'distinct_outputs': len(after | codes), 'outputs': sorted(str(c) for c in (after - codes))[:2]}))
     else:
         nd = getattr(ctx, 'nondet_iterations', [])
         obs.append(Obligation(NONDET, not nd, {'sites': list(nd)[:4]}))
     return obs
+
+
+def run_native_job(job):
+    """native side of the determinism clause on the sample instance of a skeleton: repeated runs and runs that follow other option
+    sets on the same thread must print the same bytes (the oracle's ConcreteCtx branch). Concrete representatives, no solver."""
+    import importlib
+    skel = make_skeleton(job['spec'])
+    res = {'violations': [], 'inconclusive': [], 'samples': [], 'obligations': 0, 'distinct': [], 'vacuity': {}, 'kernels': {'native-determinism': {'paths': 1, 'obligations': 0}}}
+    e3 = elements._e3()
+    src = skel.sample_source()
+    for o in job.get('option_sets', [{}]):
+        cand = {'skeleton': skel.sid + '|native', 'kind': 'native-fallback', 'obligation': None, 'source': src, 'options': o, 'tsx': skel.tsx, 'info': None, 'variants': [], 'alt_sources': [], 'twice': False}
+        ok, d = harness.native_check(e3, oracle, cand, skel)
+        res['obligations'] += 2
+        res['kernels']['native-determinism']['obligations'] += 2
+        if ok is True and d.get('native') != 'panic':
+            cand['obligation'] = d.get('obligation'); cand['kind'] = 'violation'; cand['info'] = d.get('info')
+            res['violations'].append(cand)
+    res['stats'] = {'paths': 1, 'queries': 0, 'sat': 0, 'unsat': 0, 'unknown': 0, 'solver_s': 0.0, 'steps': 0, 'fns': {}, 'models': []}
+    res['spec'] = job['spec']
+    return res
 
 
 def static_scan(it):
@@ -191,8 +224,13 @@ def main(argv):
                   'symbolic_graphs': '2 (quick) / 3 alias | extends | Partial declarations whose referenced names are fully symbolic (2 characters): every edge set incl. self and mutual reference',
                   'budget': 'call depth 150 / 400k MIR steps per path: exceeding it is reported as non-termination and confirmed natively (stack overflow kills the driver process)'}
     rep.assumptions = ['kernel level: panic-freedom on the anchored value shapes (every other check of this suite also reports reachable panics as violations) and termination of type resolution;',
-                       'determinism is decided within one process only (two runs on one path condition + a static scan of the MIR for hash-map iteration); fresh-process and byte-level output identity are outside']
+                       'determinism: symbolically, two runs on one path condition and no order-observing iteration of a randomly hashed container; natively (sample instances of a spread of skeletons x 5 option sets), byte identity over 9 runs and after runs under perturbed options on the same thread; a fresh process per run is not exercised']
     res = common.run_jobs('mirsym.checks.elements', 'run_family_job', js)
+    # native determinism kernel: a spread of skeletons x option sets, each served repeatedly and after perturbed runs
+    osets = [{}, {'optimize': True}, {'resolveType': True, 'optimize': True}, {'customElementPatterns': ['^x-'], 'mergeProps': False}, {'transformOn': True, 'enableObjectSlots': False}]
+    step = 9 if rep.tier == 'quick' else 3
+    njobs = [{'module': MOD, 'spec': j['spec'], 'option_sets': osets} for i, j in enumerate(js) if i % step == 0 and j['spec'].get('kind') != 'symgraph']
+    res += common.run_jobs(MOD, 'run_native_job', njobs)
     raw = []
     for r in res:
         raw.extend(r.pop('violations', []))
